@@ -98,9 +98,9 @@ func cmdCheck(args []string) {
 		seed, _ = strconv.Atoi(s)
 	}
 	t0 := time.Now()
-	timeout := 20 * time.Second
+	timeout := 60 * time.Second
 	if *tier == "thorough" {
-		timeout = 120 * time.Second
+		timeout = 300 * time.Second
 	}
 	prog, err := LoadProg(*root)
 	if err != nil {
@@ -148,6 +148,7 @@ func cmdCheck(args []string) {
 	var samples []interface{}
 	var provedNames []string
 	var knownLines, knownObls []string
+	slowest, slowestName := 0.0, ""
 	var bounded []string
 	replayDir := filepath.Join(verifDir, "replays", *prop)
 
@@ -186,6 +187,9 @@ func cmdCheck(args []string) {
 			if r.Solver != "" {
 				solverWins[r.Solver]++
 				solverSecs += r.Seconds
+				if r.Seconds > slowest {
+					slowest, slowestName = r.Seconds, r.Obl.Name
+				}
 			}
 			ok := r.Status == "proved" || r.Status == "trivial"
 			if ok {
@@ -266,6 +270,7 @@ func cmdCheck(args []string) {
 		"samples":                  samples,
 		"solver_wins":              solverWins,
 		"solver_seconds":           round3(solverSecs),
+		"slowest_obligation":       map[string]interface{}{"name": slowestName, "seconds": round3(slowest), "budget_seconds": timeout.Seconds()},
 		"known_findings_reported":  len(seen),
 		"known_finding_obligations": knownObls,
 		"undecided_clauses":        pinfo.Undecided,
